@@ -1,6 +1,7 @@
 package core
 
 import (
+	"encoding/json"
 	"fmt"
 	"go/token"
 	"go/types"
@@ -56,6 +57,13 @@ type Engine struct {
 	standaloneList []*types.Named
 	memOffCache    map[types.Type][]int64
 	autoPureCache  map[*ssa.Function]bool
+	// baseline: keys of the package's functions at the commit the contracts were written for
+	// (/verif/baseline_funcs.json). A function that is not in it and has no contract was
+	// introduced by a later change: calls of it are verified through (inlined) instead of
+	// being abstracted, and its writes count as its callers' for write-set declarations.
+	baseline        map[string]bool
+	autoInlineCache map[*ssa.Function]bool
+	Rel             string
 }
 
 // Load type-checks the package in dir (with -tags verif) and builds naive-form SSA for it.
@@ -105,6 +113,9 @@ func Load(repo, rel string) (*Engine, error) {
 			e.funcsByKey[e.fnKey(fn)] = fn
 		}
 	}
+	e.Rel = rel
+	e.baseline = loadBaseline(rel)
+	e.autoInlineCache = map[*ssa.Function]bool{}
 	e.findReadonlyGlobals()
 	if err := e.parseFieldDecls(); err != nil {
 		return nil, err
@@ -702,4 +713,111 @@ func (e *Engine) callerUnits(prop string) []*UnitResult {
 		out = append(out, &UnitResult{Unit: name, Kind: "callers", Props: props, Obls: []*Obligation{o}})
 	}
 	return out
+}
+
+// loadBaseline reads the function keys recorded for the package directory rel.
+func loadBaseline(rel string) map[string]bool {
+	path := os.Getenv("VERIF_BASELINE")
+	if path == "" {
+		exe, err := os.Executable()
+		if err != nil {
+			return nil
+		}
+		path = filepath.Join(filepath.Dir(filepath.Dir(exe)), "baseline_funcs.json")
+	}
+	data, err := os.ReadFile(path)
+	if err != nil {
+		return nil
+	}
+	var all map[string][]string
+	if json.Unmarshal(data, &all) != nil {
+		return nil
+	}
+	keys, ok := all[filepath.Clean(rel)]
+	if !ok {
+		return nil
+	}
+	m := map[string]bool{}
+	for _, k := range keys {
+		m[k] = true
+	}
+	return m
+}
+
+// FuncKeys lists the keys of the package's functions (for the baseline file).
+func (e *Engine) FuncKeys() []string {
+	var ks []string
+	for k := range e.funcsByKey {
+		ks = append(ks, k)
+	}
+	sort.Strings(ks)
+	return ks
+}
+
+// isNewFunc: a named package function without contract that the baseline does not know.
+func (e *Engine) isNewFunc(fn *ssa.Function) bool {
+	if e.baseline == nil || fn == nil || fn.Parent() != nil || len(fn.Blocks) == 0 {
+		return false
+	}
+	if fn.Pkg != e.Pkg {
+		return false
+	}
+	if e.contractFor(fn) != nil {
+		return false
+	}
+	return !e.baseline[e.fnKey(fn)]
+}
+
+// autoInline: a new function (isNewFunc) that can be executed in place: not recursive, of
+// moderate size, without goroutines, channel operations or select.
+func (e *Engine) autoInline(fn *ssa.Function) bool {
+	if r, ok := e.autoInlineCache[fn]; ok {
+		return r
+	}
+	e.autoInlineCache[fn] = false
+	if !e.isNewFunc(fn) {
+		return false
+	}
+	n := 0
+	for _, b := range fn.Blocks {
+		for _, in := range b.Instrs {
+			n++
+			switch in := in.(type) {
+			case *ssa.Go, *ssa.Send, *ssa.Select, *ssa.MakeChan:
+				return false
+			case *ssa.UnOp:
+				if in.Op == token.ARROW {
+					return false
+				}
+			case *ssa.Call:
+				if callee := in.Call.StaticCallee(); callee != nil && e.reachesFn(callee, fn, 0) {
+					return false // recursion
+				}
+			}
+		}
+	}
+	if n > 600 {
+		return false
+	}
+	e.autoInlineCache[fn] = true
+	return true
+}
+
+func (e *Engine) reachesFn(from, target *ssa.Function, depth int) bool {
+	if from == target {
+		return true
+	}
+	if depth > 6 || from.Pkg != e.Pkg {
+		return false
+	}
+	for _, b := range from.Blocks {
+		for _, in := range b.Instrs {
+			if c, ok := in.(ssa.CallInstruction); ok {
+				if callee := c.Common().StaticCallee(); callee != nil && callee != from && e.reachesFn(callee, target, depth+1) {
+					return true
+				}
+			}
+		}
+	}
+	return false
 }
